@@ -77,20 +77,30 @@ def annotate_one(plain, target, has_src, mode, anns, use_dmp):
     annotations.reverse()                       # the call must sort them itself
     o = {"target": _cp(target), "plain": _cp(plain), "hasSrc": has_src, "mode": mode,
          "anns": [list(a) for a in anns], "dmp": use_dmp, "raised": "", "items": [], "wf": True, "tc": [],
-         "src_wf": True, "src_tc": [], "minimal": True}
+         "src_wf": True, "src_tc": [], "minimal": True, "oversize": False}
     try:
         out = annotate_citations(plain, annotations, source_text=target if has_src else None,
                                  unbalanced_tags=mode, use_dmp=use_dmp, **extra)
         if not isinstance(out, str):
             raise TypeError("annotate_citations did not return a string")
-        o["items"] = items_of(out)
+        # A run-away output (many times longer than the target plus every marker an annotation loop can legitimately
+        # emit: two per annotation and two more per tag of the target) is recorded in reduced form -- the text that is
+        # left when the inserted strings are deleted, as ONE slice -- so that judging it stays cheap.  C09 (deleting the
+        # inserted strings gives the target) and C11's lxml verdicts are judged on it exactly; the clauses that need the
+        # positions of the markers are not judged on such a record (flag `oversize`).
+        bound = len(target) + 18 * max(1, len(anns)) * (2 + 2 * target.count("<"))
+        if len(out) > 4 * bound + 2000:
+            o["oversize"] = True
+            o["items"] = [{"k": "s", "id": 0, "t": _cp(SPLIT.sub("", out)[: 4 * bound + 2000])}]
+        else:
+            o["items"] = items_of(out)
         if has_src and target != plain:
             from eyecite.annotate import SpanUpdater
             steps = (SpanUpdater.get_diff_steps(plain, target) if use_dmp
                      else list(SpanUpdater.get_diff_steps_builtin(plain, target)))
             o["minimal"] = all(op != "-" for op, _ in steps)
         o["wf"], tc = lxml_judge(out)
-        o["tc"] = _cp(tc)
+        o["tc"] = _cp(tc[: 4 * bound + 2000])
         o["src_wf"], stc = lxml_judge(target)
         o["src_tc"] = _cp(stc)
         o["output"] = out
@@ -162,7 +172,8 @@ def run_pipeline(payload):
             o = annotate_one(plain, c["markup"], True, c["mode"], anns, c.get("dmp", True))
         except Exception as ex:  # noqa: BLE001
             o = {"target": _cp(c["markup"]), "plain": [], "hasSrc": True, "mode": c["mode"], "anns": [], "dmp": c.get("dmp", True),
-                 "raised": f"{type(ex).__name__}: {ex}", "items": [], "wf": True, "tc": [], "src_wf": True, "src_tc": [], "minimal": True}
+                 "raised": f"{type(ex).__name__}: {ex}", "items": [], "wf": True, "tc": [], "src_wf": True, "src_tc": [], "minimal": True,
+                 "oversize": False}
         o["src"] = []
         res.append(o)
     return res
